@@ -460,6 +460,8 @@ pub fn monitored_swap(acc: &mut Acc, wd: &mut PairWorld, pl: &SwapPlan) -> bool 
                 acc.violation("C14", "Q3/pending-fee-delta!=protocol_fee", viol_detail(wd, json!({"pre": format!("{pre:?}"), "post": format!("{post:?}"), "pf": pf.to_string(), "step": what})));
             }
             if pre.supply[ask].wrapping_sub(post.supply[ask]) != bf {
+                // C07: a burn fee that was charged (and counted) must really leave circulation
+                acc.violation("C07", "A3/burn-fee-charged-but-supply-not-reduced-by-it", viol_detail(wd, json!({"asset": wd.pair.assets[ask].id(), "pre_supply": pre.supply[ask].to_string(), "post_supply": post.supply[ask].to_string(), "burn_fee": bf.to_string(), "step": what})));
                 acc.violation("C14", "Q4/supply-drop!=burn_fee", viol_detail(wd, json!({"pre_supply": pre.supply[ask].to_string(), "post_supply": post.supply[ask].to_string(), "bf": bf.to_string(), "step": what})));
             }
             // pair balances: offer side +offer, ask side -(ret+burn)
